@@ -450,7 +450,7 @@ def check_C12(tier):
         obs += [o for o in K.table_rules(f) if o.key.startswith(("LARGE_POW5", "SMALL_INT_POW5"))]
         h, n = E.r_wrapping_arith(v, "minimal_lexical::bigint::", WRAP_OK)
         obs += E.hits_to_obs("R12.4", R4, h, n)
-        rep.floor("%s: wrapping_* sites in bigint" % cfg, n, 3)
+        rep.floor("%s: call sites scanned in bigint.rs for wrapping_* limb arithmetic" % cfg, n, 60)
         h, n = E.r_carry_components_used(f)
         obs += E.hits_to_obs("R12.2", R2C, h, n)
         rep.floor("%s: carry-returning call sites in bigint" % cfg, n, 10)
